@@ -222,7 +222,6 @@ func VerifH_gme() {
 		verifAssert(g != nil && !g.closed, "C15: RPC routed to a missing or closed pool after construction")
 	}
 	dials0 := vDials
-	verifKnown("F-emptyme", emptyList && !defaultMissing)
 	verifKnown("F-nonatomic", !defaultMissing)
 	uerr := gme.UpdateMultiEndpoints(upd)
 	verifReach("updated")
@@ -337,7 +336,6 @@ func VerifH_gmenew() {
 		verifAssume(vDialFail >= 0 && vDialFail <= 1)
 	}
 	verifKnown("F-nonatomic", kind != 0)
-	verifKnown("F-emptyme", kind == 1)
 	gme, err := NewGCPMultiEndpoint(opts)
 	verifReach("returned")
 	if kind == 2 {
